@@ -289,7 +289,14 @@ def execute(plan):
         if kb[0] != ko[0] or not _eq(kb, ko):
             k1 = 'ok' if kb[0] == 'ok' else kb[1]
             k2 = 'ok' if ko[0] == 'ok' else ko[1]
-            viol('outcome-changed/%s-to-%s' % (k1, k2),
+            sig = 'outcome-changed/%s-to-%s' % (k1, k2)
+            eo = obsd['outcomes'][i][1]
+            if ko[0] == 'exc' and not isinstance(eo, pywbem.Error) and \
+                    k1 != k2:
+                # an observer raised: name it by exception and code site
+                sig = 'observer-raised/%s/%s' % (
+                    k2, c02.innermost_pywbem_frame(eo))
+            viol(sig,
                  'op #%d %s: bare -> %s; with observers %r -> %s' %
                  (i, op['op'], c02._short(kb, 300), obs,
                   c02._short(ko, 600)))
@@ -299,6 +306,25 @@ def execute(plan):
                  'op #%d %s: observers changed the bytes sent' %
                  (i, op['op']))
             break
+        # last_raw_request / last_raw_reply must not depend on the observers
+        lrb = bare['raw'][i][0]
+        lr = obsd['raw'][i][0]
+        if lrb and lr and lrb[0] != 'EXC' and lr[0] != 'EXC' and \
+                (lrb[0] != lr[0] or lrb[1] != lr[1]):
+            viol('last-raw-depends-on-observers',
+                 'op #%d %s: last_raw_request/last_raw_reply are %s/%s bare '
+                 'but %s/%s with observers %r' %
+                 (i, op['op'], c02._short(lrb[0], 80), c02._short(lrb[1], 80),
+                  c02._short(lr[0], 80), c02._short(lr[1], 80), obs))
+        # an operation that got no reply at all has no last_raw_reply
+        for tag, ex_, lr_ in (('bare', exb, lrb), ('observed', exo, lr)):
+            if ex_ and lr_ and lr_[0] != 'EXC' and all(
+                    not any(isinstance(a, bytes) and a for a in (e[1] or []))
+                    for e in ex_) and lr_[1] is not None:
+                viol('stale-last-raw-reply',
+                     'op #%d %s (%s execution): no reply byte was received '
+                     'but last_raw_reply is %s' %
+                     (i, op['op'], tag, c02._short(lr_[1], 120)))
         # last_raw_request / last_raw_reply
         lr = obsd['raw'][i][0]
         if lr and lr[0] == 'EXC':
